@@ -158,7 +158,7 @@ def judge(chk, cases, rows, tag, count=True):
             vip = G.Viper(tcfg)
             swhere = {str(k): v for k, v in where.items()}
             for j, (m, p, b, meta) in enumerate(c.reqs):
-                if any("/" in v or v in (".", "..") for v in meta["params"].values()):
+                if meta["handler"] == "?" or any("/" in v or v in (".", "..") for v in meta["params"].values()):
                     continue
                 blob = G.response_blob(rt[j]).decode("utf-8", "replace")
                 found = set(re.findall(r"tk[A-Za-z0-9]{14}|(?<![0-9.])[0-9]{9,10}(?![0-9])", blob))
@@ -274,6 +274,11 @@ def run(chk, failed):
     routes, rt_unknown = G.parse_routes(G.gen_text("RouteTable"))
     feeds = G.parse_feeds(G.gen_text("RespFields"))
     lits = [l for l in G.harvest_literals(C.REPO) if "/" not in l and l.strip() == l and l]
+    extra_routes = G.harvest_paths(C.REPO, {p for _, p, _ in routes})
+    if extra_routes:
+        chk.notes.append("URL-like literals of the sources that are not in RouteTable, also requested: %s"
+                         % sorted({p for _, p, _ in extra_routes}))
+    routes = routes + extra_routes
     chk.rule = ("random Burrow configurations (1-3 clusters, consumers, client/SASL/TLS profiles, 0-4 notifiers of classes "
                 "http/email/slack/null, names incl. mixed case, dotted, key words such as 'password', string literals of the "
                 "httpserver sources) with high-entropy password tokens (plain, with JSON/URL/HTML-special characters, numeric); "
